@@ -22,7 +22,12 @@ func main() {
 	flag.StringVar(&replayFile, "replay", "", "replay file to re-run")
 	oneCase := flag.String("case", "", "internal: run Impl on one case line and print the answer")
 	isoChildArg := flag.String("isochild", "", "internal: C20 child process")
+	memProbe := flag.String("memprobe", "", "internal: C10 allocation probe child process")
 	flag.Parse()
+	if *memProbe != "" {
+		memProbeChild(*memProbe)
+		return
+	}
 	if *isoChildArg != "" {
 		isoChild(*isoChildArg)
 		return
